@@ -470,7 +470,7 @@ pub fn global_decode_uri(
         Some(v) => interp.to_js_string(v),
         None => interp.intern(""),
     };
-    let result = percent_decode(s.as_str(), true);
+    let result = percent_decode(s.as_str(), true)?;
     Ok(Guarded::unguarded(JsValue::String(JsString::from(result))))
 }
 
@@ -507,40 +507,65 @@ pub fn global_decode_uri_component(
         Some(v) => interp.to_js_string(v),
         None => interp.intern(""),
     };
-    let result = percent_decode(s.as_str(), false);
+    let result = percent_decode(s.as_str(), false)?;
     Ok(Guarded::unguarded(JsValue::String(JsString::from(result))))
 }
 
-fn percent_decode(s: &str, preserve_reserved: bool) -> String {
-    let mut result = String::new();
-    let mut chars = s.chars().peekable();
-    while let Some(c) = chars.next() {
-        if c == '%' {
-            // Try to read two hex digits
-            let hex: String = chars.by_ref().take(2).collect();
-            if hex.len() == 2 {
-                if let Ok(byte) = u8::from_str_radix(&hex, 16) {
-                    let decoded = byte as char;
-                    // For decodeURI, don't decode reserved characters
-                    if preserve_reserved && URI_RESERVED.contains(decoded) {
-                        result.push('%');
-                        result.push_str(&hex);
-                    } else {
-                        result.push(decoded);
-                    }
-                } else {
-                    result.push('%');
-                    result.push_str(&hex);
-                }
-            } else {
-                result.push('%');
-                result.push_str(&hex);
-            }
-        } else {
-            result.push(c);
+/// Decode: %XX sequences are the UTF-8 encoding of the characters; a sequence that is
+/// incomplete or not valid UTF-8 is a URIError
+fn percent_decode(s: &str, preserve_reserved: bool) -> Result<String, JsError> {
+    let malformed = || JsError::RuntimeError {
+        kind: "URIError".to_string(),
+        message: "URI malformed".to_string(),
+        stack: Vec::new(),
+    };
+    let bytes = s.as_bytes();
+    let hex_at = |k: usize| -> Result<u8, JsError> {
+        let pair = bytes.get(k + 1..k + 3).ok_or_else(malformed)?;
+        let text = core::str::from_utf8(pair).map_err(|_| malformed())?;
+        if !text.bytes().all(|b| b.is_ascii_hexdigit()) {
+            return Err(malformed());
         }
+        u8::from_str_radix(text, 16).map_err(|_| malformed())
+    };
+    let mut result = String::new();
+    let mut k = 0;
+    let mut plain_from = 0;
+    while k < bytes.len() {
+        if bytes.get(k) != Some(&b'%') {
+            k += 1;
+            continue;
+        }
+        result.push_str(s.get(plain_from..k).unwrap_or(""));
+        let start = k;
+        let first = hex_at(k)?;
+        k += 3;
+        let extra = match first {
+            0x00..=0x7F => 0,
+            0xC0..=0xDF => 1,
+            0xE0..=0xEF => 2,
+            0xF0..=0xF7 => 3,
+            _ => return Err(malformed()),
+        };
+        let mut buf = vec![first];
+        for _ in 0..extra {
+            if bytes.get(k) != Some(&b'%') {
+                return Err(malformed());
+            }
+            buf.push(hex_at(k)?);
+            k += 3;
+        }
+        let decoded = core::str::from_utf8(&buf).map_err(|_| malformed())?;
+        // For decodeURI, reserved characters stay escaped
+        if preserve_reserved && extra == 0 && decoded.chars().all(|c| URI_RESERVED.contains(c)) {
+            result.push_str(s.get(start..k).unwrap_or(""));
+        } else {
+            result.push_str(decoded);
+        }
+        plain_from = k;
     }
-    result
+    result.push_str(s.get(plain_from..).unwrap_or(""));
+    Ok(result)
 }
 
 // Base64 encoding alphabet
